@@ -43,6 +43,33 @@ Theorem C03_amount_fields_in_range : forall valid b t r,
   Forall amount_in_range (tx_unsigned_amounts t) /\ Forall balance_in_range (tx_signed_amounts t).
 Proof. exact amount_fields_in_range. Qed.
 
+(** conditional fields are present exactly when their bundle is non-empty (so "bundle = None
+    iff empty" loses nothing): v5 Sapling, Orchard-shaped bundles, v1-v4 *)
+Theorem C03_sapling5_presence : forall valid (s : ty (c_sapling5 valid)),
+  wf (c_sapling5 valid) s = true ->
+  let ss := fst (fst s) in let os := snd (fst s) in
+  let vb := fst (snd s) in let anchor := fst (snd (snd s)) in
+  let sproofs := fst (snd (snd (snd s))) in let ssigs := fst (snd (snd (snd (snd s)))) in
+  let oproofs := fst (snd (snd (snd (snd (snd s))))) in let bsig := snd (snd (snd (snd (snd (snd s))))) in
+  (vb = None <-> ss = [] /\ os = []) /\ (anchor = None <-> ss = []) /\
+  (bsig = None <-> ss = [] /\ os = []) /\
+  length sproofs = length ss /\ length ssigs = length ss /\ length oproofs = length os.
+Proof. exact sapling5_presence. Qed.
+Theorem C03_orchard_presence : forall valid bv (o : ty (c_orchard valid bv)),
+  wf (c_orchard valid bv) o = true ->
+  (snd o = None <-> fst o = []) /\
+  (forall r, snd o = Some r -> bv <> None /\ length (fst (snd (snd (snd (snd r))))) = length (fst o)).
+Proof. exact orchard_presence. Qed.
+Theorem C03_legacy_presence : forall valid v (x : ty (c_legacy valid v)),
+  wf (c_legacy valid v) x = true ->
+  let expiry := fst (snd (snd x)) in let sap := fst (snd (snd (snd x))) in
+  let spr := fst (snd (snd (snd (snd x)))) in let bsig := snd (snd (snd (snd (snd x)))) in
+  (expiry = None <-> has_overwinter v = false) /\ (sap = None <-> has_sapling v = false) /\
+  (spr = None <-> has_sprout v = false) /\
+  (bsig = None <-> sap4_nonempty valid sap = false) /\
+  (forall js, spr = Some js -> (snd js = None <-> fst js = [])).
+Proof. exact legacy_presence. Qed.
+
 (** the signed range check is exact (accepts precisely -MAX_MONEY..=MAX_MONEY as i64) *)
 Theorem C03_balance_check_exact : forall x, x < two64 -> (balance_ok x = true <-> balance_in_range x).
 Proof. exact balance_ok_exact. Qed.
